@@ -399,5 +399,58 @@ theorem chosen_nil (L : List Edge) : chosen L [] = [] := by
   | nil => rfl
   | cons x xs ih => simp [chosen, ih]
 
+/-! ### cQASM declarations -/
+
+theorem qubitList_append (a b : List Decl) : qubitList (a ++ b) = qubitList a ++ qubitList b := by
+  simp [qubitList]
+
+theorem qubitList_cons (d : Decl) (ds : List Decl) : qubitList (d :: ds) = declQubits d ++ qubitList ds := by
+  simp [qubitList]
+
+theorem declQubits_length (d : Decl) : (declQubits d).length = declWidth d := by
+  unfold declQubits declWidth
+  cases d.size <;> simp
+
+theorem qubitList_length (ds : List Decl) : (qubitList ds).length = (ds.map declWidth).sum := by
+  induction ds with
+  | nil => simp [qubitList]
+  | cons d ds ih => simp [qubitList_cons, declQubits_length, ih]
+
+theorem mem_declQubits_name {d : Decl} {r : String × ℤ} (h : r ∈ declQubits d) : r.1 = d.name := by
+  unfold declQubits at h
+  cases hs : d.size with
+  | none => simp [hs] at h; simp [h]
+  | some k =>
+    simp [hs] at h
+    obtain ⟨i, _, rfl⟩ := h
+    rfl
+
+theorem mem_qubitList_name {ds : List Decl} {r : String × ℤ} (h : r ∈ qubitList ds) :
+    r.1 ∈ ds.map Decl.name := by
+  simp only [qubitList, List.mem_flatMap] at h
+  obtain ⟨d, hd, hr⟩ := h
+  exact List.mem_map.2 ⟨d, hd, (mem_declQubits_name hr).symm⟩
+
+theorem idxOf_range_map (nm : String) (k i : ℕ) (h : i < k) :
+    ((List.range k).map fun j => (nm, Int.ofNat j)).idxOf (nm, Int.ofNat i) = i := by
+  induction k generalizing i with
+  | zero => omega
+  | succ k ih =>
+    rw [List.range_succ, List.map_append]
+    by_cases hik : i < k
+    · have hm : (nm, Int.ofNat i) ∈ (List.range k).map fun j => (nm, Int.ofNat j) :=
+        List.mem_map.2 ⟨i, List.mem_range.2 hik, rfl⟩
+      rw [List.idxOf_append_of_mem hm]
+      exact ih i hik
+    · have : i = k := by omega
+      subst this
+      rw [List.idxOf_append_of_notMem]
+      · simp
+      · intro hm
+        obtain ⟨j, hj, he⟩ := List.mem_map.1 hm
+        have h2 : Int.ofNat j = Int.ofNat i := (Prod.mk.inj he).2
+        have h3 : j = i := Int.ofNat.inj h2
+        have := List.mem_range.1 hj
+        omega
 
 end PM.C20
